@@ -51,7 +51,8 @@ RULE = ("random path expressions (depth <= 4 quick / <= 6 thorough; iri, ^, /, |
         "model).  Round g, on every ordinary case: route sparql_n3 (the query text of the path is the object's own n3(), plain or with a "
         "namespace manager; lines n3| = the text's tokens vs the Lean writer, readn3 = rdflib's parse tree and translatePath object of that "
         "text vs the Lean reader and translate), route api (in / objects / subjects / subject_objects with unique False and True, [x, x] as "
-        "a list-valued end, Graph.value) and route first_false (MulPath.eval(..., first=False) when the top is a MulPath).  non-trivial = the path has an operator and some binding with a given end has a non-empty answer; "
+        "a list-valued end, Graph.value), route first_false (MulPath.eval(..., first=False) when the top is a MulPath) and the binding shapes of a path pattern in a "
+        "BGP: ?x path ?x (same variable twice; also pre-bound by initBindings / VALUES), an end bound by another triple pattern written before / after.  non-trivial = the path has an operator and some binding with a given end has a non-empty answer; "
         "distinct = distinct (triples, path, ends)")
 ASSUMPTIONS = ["a Graph / Dataset / aggregate view is the set of its triples (C01/C02/C15)",
                "VALUES-bound ends are only compared when the term occurs in the graph (for an absent term the algebra's "
